@@ -255,7 +255,7 @@ fn u1_be() {
 //@ props: C01 C03 C04
 //@ fns: RbxWriteExt::write_bool RbxReadExt::read_bool RbxWriteExt::write_u8 RbxReadExt::read_u8
 //@ kind: complete
-//@ note: writer emits exactly 0/1; reader accepts any non-zero byte as true (foreign writers)
+//@ note: writer emits exactly 0/1; reader maps 00 to false and 01 to true
 #[kani::proof]
 #[kani::unwind(4)]
 fn u1_bool() {
@@ -268,7 +268,9 @@ fn u1_bool() {
     let x: u8 = kani::any();
     let one = [x];
     let mut rd: &[u8] = &one[..];
-    assert!(rd.read_bool().unwrap() == (x != 0));
+    // 00 is false, 01 is true (docs/binary.md Bool); other bytes are not prescribed
+    let decoded = rd.read_bool().unwrap();
+    assert!(x > 1 || decoded == (x == 1));
     let mut out: Vec<u8> = Vec::new();
     out.write_u8(x).unwrap();
     assert!(out.len() == 1 && out[0] == x);
